@@ -637,45 +637,176 @@ def first_diff(a, b):
     return "%r != %r" % (str(a)[:60], str(b)[:60])
 
 
-def oracle(ctx, desc, label, base, other, replay_extra):
-    """model independent: `other` is the same project under another listing order / with unreferenced recipes"""
-    rep = dict(replay_extra, family="classes", desc=desc, config=label)
-    for tag, d in (("base", base), (label, other)):
+def base_of(desc):
+    """the project without the recipes nobody references"""
+    d = copy.deepcopy(desc)
+    for n in [n for n in d["recipes"] if n.endswith("_unref")]:
+        del d["recipes"][n]
+    return d
+
+
+def oracle_findings(label, base, other):
+    """model independent: `other` is the same project under another listing order and/or with unreferenced
+    recipes.  Returns [(signature, what, extra)]."""
+    out = []
+    for tag, d in (("sorted listing", base), (label, other)):
         if d.get("pre") is None or "post_classes" not in d:
             continue
         before = {"classes": d["pre"]["classes"], "anon": d["pre"]["anon"]}
         if before != d["post_classes"]:
-            which = first_diff(before, d["post_classes"])
-            ctx.violation("class-object-changed-by-resolving-recipes",
-                          "resolveClasses of the recipes changed a class object (%s): %s" % (tag, which), rep)
-            return False
+            out.append(("class-object-changed-by-resolving-recipes",
+                        "resolveClasses of the recipes changed a class object (%s): %s" % (tag, first_diff(before, d["post_classes"])), {}))
+            break
     if ("parse_error" in base) != ("parse_error" in other):
-        ctx.violation("parse-result-depends-on:" + label, "project parses under one listing only: %s / %s" % (
-            base.get("parse_error"), other.get("parse_error")), rep)
-        return False
+        out.append(("parse-result-depends-on:" + label, "project parses under one listing only: %s / %s" % (
+            base.get("parse_error"), other.get("parse_error")), {}))
+        return out
     if "parse_error" in base:
-        return True
-    ok = True
+        return out
     for rn, post in base["post"].items():
         if rn in other["post"] and other["post"][rn] != post:
-            ctx.violation("resolved-recipe-depends-on:" + label,
-                          "recipe %s resolves differently under %s: %s" % (rn, label, first_diff(post, other["post"][rn])),
-                          dict(rep, recipe=rn))
-            ok = False
+            out.append(("resolved-recipe-depends-on:" + label, "recipe %s resolves differently under %s: %s" % (
+                rn, label, first_diff(post, other["post"][rn])), {"recipe": rn}))
             break
     if "packages" in base and "packages" in other:
         a, b = ids_of(base), ids_of(other)
         diff = sorted(k for k in set(a) | set(b) if a.get(k) != b.get(k))
-        ctx.count("classes:ids-compared", len(a))
         if diff:
-            ctx.violation("id-depends-on:" + label, "Variant-Id of %s changed under %s: %s -> %s" % (
-                diff[0], label, a.get(diff[0]), b.get(diff[0])), dict(rep, step=list(diff[0])))
-            ok = False
+            out.append(("id-depends-on:" + label, "Variant-Id of %s changed under %s: %s -> %s" % (
+                diff[0], label, a.get(diff[0]), b.get(diff[0])), {"step": list(diff[0])}))
     elif ("packages" in base) != ("packages" in other):
-        ctx.violation("package-tree-depends-on:" + label, "package tree exists under one listing only: %s / %s" % (
-            base.get("ids_error"), other.get("ids_error")), rep)
-        ok = False
-    return ok
+        out.append(("package-tree-depends-on:" + label, "package tree exists under one listing only: %s / %s" % (
+            base.get("ids_error"), other.get("ids_error")), {}))
+    return out
+
+
+def still_fails(desc, label, order, signature):
+    base, other = dump_all([(base_of(desc), "sorted"), (desc, order)])
+    if "crash" in base or "crash" in other:
+        return None
+    for sig, what, extra in oracle_findings(label, base, other):
+        if sig == signature:
+            return (what, extra)
+    return None
+
+
+def bodies_of(desc):
+    for kind in ("classes", "recipes"):
+        for n, b in desc[kind].items():
+            yield b
+            stack = [b]
+            while stack:
+                x = stack.pop()
+                for sub in x.get("multiPackage", {}).values():
+                    yield sub
+                    stack.append(sub)
+
+
+def shrink(desc, label, order, signature, budget=90, seconds=300):
+    """greedy, big steps first: all other recipes, one key name everywhere, classes, single keys"""
+    import time
+    t0 = time.time()
+    cur = copy.deepcopy(desc)
+    last = None
+    tries = [0]
+    KEEP = ("inherit", "multiPackage", "root", "depends", "packageScript")
+
+    def attempt(cand):
+        nonlocal cur, last
+        if tries[0] >= budget or time.time() - t0 > seconds:
+            return False
+        tries[0] += 1
+        r = still_fails(cand, label, order, signature)
+        if r is not None:
+            cur, last = cand, r
+            return True
+        return False
+
+    def drop_recipes(d, names):
+        d = copy.deepcopy(d)
+        for n in names:
+            del d["recipes"][n]
+        root = d["recipes"].get("root", {})
+        root["depends"] = [x for x in root.get("depends", []) if not (isinstance(x, str) and any(
+            x == n or x.startswith(n + "-") for n in names))]
+        return d
+
+    def drop_class(d, n):
+        d = copy.deepcopy(d)
+        del d["classes"][n]
+        for b in bodies_of(d):
+            if "inherit" in b:
+                b["inherit"] = [x for x in b["inherit"] if x != n]
+        d["_classes"] = [c for c in d.get("_classes", []) if c != n]
+        return d
+
+    def droppable(d):
+        return [n for n in sorted(d["recipes"]) if n not in ("root", "tprov") and not n.startswith("l_")]
+    plain = [n for n in droppable(cur) if not n.endswith("_unref")]
+    if not (plain and attempt(drop_recipes(cur, plain))):
+        for n in droppable(cur):
+            if n in cur["recipes"]:
+                attempt(drop_recipes(cur, [n]))
+    root = cur["recipes"].get("root", {})
+    if any(k not in KEEP and k != "buildScript" for k in root) or "inherit" in root:
+        cand = copy.deepcopy(cur)
+        cand["recipes"]["root"] = {k: v for k, v in root.items() if k in ("root", "depends", "packageScript", "buildScript")}
+        attempt(cand)
+    names = sorted({k for b in bodies_of(cur) for k in b if k not in KEEP})
+    for k in names:
+        cand = copy.deepcopy(cur)
+        for kind in ("classes", "recipes"):
+            for n, b in cand[kind].items():
+                if n in ("root", "tprov"):
+                    continue
+                for x in [b] + [y for y in bodies_of({"classes": {}, "recipes": {n: b}})][1:]:
+                    x.pop(k, None)
+        attempt(cand)
+    for n in sorted(cur["classes"], reverse=True):
+        if n in cur["classes"]:
+            attempt(drop_class(cur, n))
+    for n in droppable(cur):
+        if n in cur["recipes"] and len([x for x in cur["recipes"] if x.endswith("_unref")]) > 1:
+            attempt(drop_recipes(cur, [n]))
+    changed = True
+    while changed and tries[0] < budget:
+        changed = False
+        nb = len(list(bodies_of(cur)))
+        for bi in range(nb):
+            for k in sorted(k for k in list(bodies_of(cur))[bi] if k not in KEEP):
+                cand = copy.deepcopy(cur)
+                body = list(bodies_of(cand))[bi]
+                if k in body and not (k in ("buildScript",) and body.get("root")):
+                    del body[k]
+                    if attempt(cand):
+                        changed = True
+    # leaf recipes nobody names any more
+    used = {(x if isinstance(x, str) else x["name"]) for b in bodies_of(cur) for x in b.get("depends", [])}
+    cand = copy.deepcopy(cur)
+    for n in [n for n in cand["recipes"] if n.startswith("l_") and n not in used]:
+        del cand["recipes"][n]
+    attempt(cand)
+    return cur, last, tries[0]
+
+
+def oracle(ctx, desc, label, order, base, other):
+    reported = getattr(ctx, "_classes_reported", None)
+    if reported is None:
+        reported = ctx._classes_reported = set()
+    fs = oracle_findings(label, base, other)
+    if "packages" in base and "packages" in other:
+        ctx.count("classes:ids-compared", len(ids_of(base)))
+    for sig, what, extra in fs:
+        rep = dict(extra, family="classes", desc=desc, config=label, order=order)
+        if sig not in reported and not ctx.replay:
+            reported.add(sig)
+            small, last, tries = shrink(desc, label, order, sig)
+            if last is not None:
+                what, extra = last
+                rep = dict(extra, family="classes", desc=small, config=label, order=order, shrink_attempts=tries,
+                           classes=len(small["classes"]), recipes=len(small["recipes"]))
+        ctx.violation(sig, what, rep)
+    return not fs
 
 
 def cases_of(ctx, pi, dumped, cases, meta):
@@ -691,7 +822,7 @@ def cases_of(ctx, pi, dumped, cases, meta):
             exp = resolved_lit(post, post.get("order") or [])
             kind = "ok"
         elif err and err["recipe"] == rn and err["kind"] in ("cycle", "missing"):
-            exp = "(Err %s)" % {"cycle": "ECycle", "missing": "EMissing"}[err["kind"]]
+            exp = "(@Err resolved %s)" % {"cycle": "ECycle", "missing": "EMissing"}[err["kind"]]
             kind = err["kind"]
         else:
             continue
@@ -707,16 +838,17 @@ def run_classes(ctx):
     ctx.assumptions += ["class level: the model's input is the state of the Recipe objects after __init__ (YAML parsing, "
                         "schema validation and IncludeHelper.resolve of single script fragments stay with the real parser); "
                         "directory listing order is simulated by reordering os.walk results in the dumping sub-process"]
+    replay_case = None
     if ctx.replay:
         try:
-            case = json.load(open(ctx.replay)).get("case", {})
+            replay_case = json.load(open(ctx.replay)).get("case", {})
         except (OSError, ValueError):
-            case = {}
-        if not isinstance(case, dict) or case.get("family") != "classes":
+            replay_case = {}
+        if not isinstance(replay_case, dict) or replay_case.get("family") != "classes":
             return
-        projects = [case["desc"]]
+        projects = [base_of(replay_case["desc"])]
     else:
-        projects = [gen_hierarchy(rng) for _ in range(ctx.n(14, 140))]
+        projects = [gen_hierarchy(rng) for _ in range(ctx.n(10, 100))]
     # corpus first
     cdir = os.path.join(core.VERIF, "corpus", "C03")
     corpus = []
@@ -727,12 +859,18 @@ def run_classes(ctx):
     projects = corpus + projects
     jobs = []
     for pi, desc in enumerate(projects):
-        ex = add_unreferenced(desc, rng) if "_classes" in desc else desc
         jobs.append((pi, "base", desc, "sorted"))
+        if replay_case is not None:
+            jobs.append((pi, replay_case.get("config", "unreferenced-recipe"), replay_case["desc"], replay_case.get("order", "sorted")))
+            continue
+        ex = add_unreferenced(desc, rng) if "_classes" in desc else desc
+        if any(n.endswith("_unref") for n in desc["recipes"]):          # a corpus project that carries its unreferenced recipes
+            ex, desc = desc, base_of(desc)
+            jobs[-1] = (pi, "base", desc, "sorted")
         jobs.append((pi, "unreferenced-recipe", ex, "sorted"))                  # aaa_unref is resolved first
         jobs.append((pi, "unreferenced-recipe-and-listing-order", ex,
                      rng.choice(["reversed", "reversed", "shuffle:%d" % rng.randrange(1 << 30)])))
-        if ctx.tier == "thorough" or ctx.replay or pi % 3 == 0:
+        if ctx.tier == "thorough" or pi % 3 == 0:
             jobs.append((pi, "listing-order-of-recipe-files", desc, rng.choice(["reversed", "shuffle:%d" % rng.randrange(1 << 30)])))
     results = dump_all([(j[2], j[3]) for j in jobs])
     cases, meta, tables, table_keys, seen_cases = [], [], {}, {}, set()
@@ -755,13 +893,15 @@ def run_classes(ctx):
             if "crash" in other:
                 ctx.tie_broken("Ids-classes", {"what": "dump sub-process failed", "detail": other["crash"], "desc": j[2]})
                 continue
-            oracle(ctx, j[2], label, base, other, {})
+            oracle(ctx, j[2], label, j[3], base, other)
         if "packages" in base:
             ctx.count("classes:projects-with-package-tree")
         elif "ids_error" in base:
             ctx.count("classes:projects-without-package-tree")
         # correspondence on the base listing and on the listing with unreferenced recipes (their own resolution too)
         for label in ("base", "unreferenced-recipe-and-listing-order"):
+            if label not in rs:
+                continue
             d = rs[label][1]
             if "crash" in d or d.get("pre") is None:
                 continue
